@@ -164,6 +164,10 @@ int CVode(void *mem, realtype tout, N_Vector y, realtype *tret, int) {
         flag = g_mock.outcomes[g_mock.next_outcome].flag;
         frac = g_mock.outcomes[g_mock.next_outcome].frac;
         g_mock.next_outcome += 1;
+    } else if (g_mock.tail_on) {
+        flag = g_mock.tail.flag;  // a problem on which the integrator keeps failing
+        frac = g_mock.tail.frac;
+        g_mock.tail_used += 1;
     }
     realtype tnew;
     if (flag >= 0) {
